@@ -13,10 +13,12 @@ git checkout -q -- go.sum go.mod 2>/dev/null
 # state: change applied?
 if git apply -R --check seed.patch 2>/dev/null; then :; else git apply seed.patch || { echo "cannot apply seed.patch"; exit 3; }; fi
 suite=FAIL; go test -count=1 -skip TestSeedDemo ./... >/dev/null 2>&1 && suite=PASS
-demo_with=PASS; go test -count=1 -race -run TestSeedDemo ./... >/tmp/seed_demo_with.log 2>&1 || demo_with=FAIL
-if [ $demo_with = PASS ]; then for i in 1 2 3 4 5; do go test -count=1 -race -run TestSeedDemo ./... >/tmp/seed_demo_with.log 2>&1 || { demo_with=FAIL; break; }; done; fi
+# allocation-counting demonstrations (C18) run without -race: the race detector's instrumentation allocates
+RACE=-race; case "$2" in C18-*) RACE=;; esac
+demo_with=PASS; go test -count=1 $RACE -run TestSeedDemo ./... >/tmp/seed_demo_with.log 2>&1 || demo_with=FAIL
+if [ $demo_with = PASS ]; then for i in 1 2 3 4 5; do go test -count=1 $RACE -run TestSeedDemo ./... >/tmp/seed_demo_with.log 2>&1 || { demo_with=FAIL; break; }; done; fi
 git apply -R seed.patch
-demo_without=FAIL; go test -count=1 -race -run TestSeedDemo ./... >/dev/null 2>&1 && demo_without=PASS
+demo_without=FAIL; go test -count=1 $RACE -run TestSeedDemo ./... >/dev/null 2>&1 && demo_without=PASS
 git apply seed.patch
 git checkout -q -- go.sum go.mod 2>/dev/null
 echo "worktree: suite_with_change=$suite demo_with_change=$demo_with demo_without_change=$demo_without"
